@@ -57,6 +57,18 @@ def snapshot(sys_):
     return {k: json.dumps(_plain(rep[k]), default=str) for k in SNAP}
 
 
+def snapshot_solver_first(sys_):
+    """the same reports, but solve() and rail_rep() are taken BEFORE any configuration report has run on this object: if the
+    two snapshot orders disagree on two identically built systems, some report changes what a later one returns"""
+    pre = {}
+    for name, f, keys in (("solve", sys_.solve, ["Component", "Phase"]), ("rail_rep", sys_.rail_rep, ["Rail", "Component", "Phase"])):
+        df, e, _ = H.quiet(f)
+        pre[name] = ("exc", H.exc_name(e)) if e is not None else ("ok", c16.df_rows(df, keys))
+    rep = c16.reports(sys_, diag=False)
+    rep.update(pre)
+    return {k: json.dumps(_plain(rep[k]), default=str) for k in SNAP}
+
+
 def gen_call(rng, names, phases, tabled):
     """one analysis call: (label, function(sys) -> result, argument objects)"""
     k = rng.choice(["solve", "solve", "rail_rep", "params", "limits", "phases", "tree", "save", "plot_interp",
@@ -111,6 +123,17 @@ def analyse_session(ctx, sys_, case, names, phases, tabled, stream):
     """random interleaving of analyses on one system; returns True if something failed"""
     rng = ctx.rng
     base = snapshot(sys_)
+    twin = case.get("_twin")
+    if twin is not None:
+        other = snapshot_solver_first(twin())
+        diff = [k for k in SNAP if other[k] != base[k]]
+        ctx.stats["%s:twin_order_compared" % stream] += 1
+        if diff:
+            ctx.oracle({k: v for k, v in case.items() if k != "_twin"}, "state_unchanged", "report order", {},
+                       {"stream": stream, "reports_that_differ": diff,
+                        "a_is": "params, limits, phases, tree, save, then solve, rail_rep", "b_is": "solve, rail_rep first, on an identically built system",
+                        "first": {diff[0]: [base[diff[0]][:300], other[diff[0]][:300]]}})
+            return True
     calls = []
     n = rng.randint(3, 10)
     first_solve = {}
@@ -123,7 +146,7 @@ def analyse_session(ctx, sys_, case, names, phases, tabled, stream):
                               for k, v in before_args.items()}, H.exc_name(e)])
         ctx.stats["%s:call:%s:%s" % (stream, label, "ok" if e is None else H.exc_name(e))] += 1
         if args != before_args:
-            ctx.oracle(dict(case, calls=calls), "args_unchanged", label, {},
+            ctx.oracle(dict({k_: v_ for k_, v_ in case.items() if k_ != "_twin"}, calls=calls), "args_unchanged", label, {},
                        {"stream": stream, "before": json.dumps(before_args, default=str)[:300],
                         "after": json.dumps(args, default=str)[:300]})
             bad = True
@@ -131,13 +154,13 @@ def analyse_session(ctx, sys_, case, names, phases, tabled, stream):
             key = json.dumps(before_args, sort_keys=True)
             cur = json.dumps(_plain(c16.df_rows(res, ["Component", "Phase"])), default=str)
             if key in first_solve and first_solve[key] != cur:
-                ctx.oracle(dict(case, calls=calls), "solve_repeatable", label, {}, {"stream": stream, "args": before_args})
+                ctx.oracle(dict({k_: v_ for k_, v_ in case.items() if k_ != "_twin"}, calls=calls), "solve_repeatable", label, {}, {"stream": stream, "args": before_args})
                 bad = True
             first_solve.setdefault(key, cur)
         now = snapshot(sys_)
         changed = [k for k in SNAP if now[k] != base[k]]
         if changed:
-            ctx.oracle(dict(case, calls=calls), "state_unchanged", label, {},
+            ctx.oracle(dict({k_: v_ for k_, v_ in case.items() if k_ != "_twin"}, calls=calls), "state_unchanged", label, {},
                        {"stream": stream, "reports_that_changed": changed,
                         "first": {changed[0]: [base[changed[0]][:300], now[changed[0]][:300]]}})
             bad = True
@@ -159,7 +182,8 @@ def desc_case(ctx):
     names = [c["name"] for c in desc["comps"]]
     tabled = [c["name"] for c in desc["comps"] if any(isinstance(v, dict) and k != "limits" for k, v in c["args"].items())]
     case = {"desc": desc, "key": json.dumps(desc, sort_keys=True, default=str),
-            "short": [(c["kind"], c["name"], c["parents"]) for c in desc["comps"]]}
+            "short": [(c["kind"], c["name"], c["parents"]) for c in desc["comps"]],
+            "_twin": (lambda d=desc: sysdesc.quiet_call(sysdesc.build, copy.deepcopy(d))[0])}
     return sys_, case, names, list((desc.get("phases") or {}).keys()), tabled
 
 
@@ -171,7 +195,7 @@ def hist_case(ctx):
     names = [c[0] for c in st["comps"]]
     tabled = [c[0] for c in st["comps"] if run.by_tag.get(c[2], {}).get("table")]
     h = run.history()
-    case = {"history": h, "key": c14._hist_key(h), "short": H.short(h)[:12]}
+    case = {"history": h, "key": c14._hist_key(h), "short": H.short(h)[:12], "_twin": (lambda hh=h: c16.replay16(hh).sys)}
     return run.sys, case, names, [k for k, _ in (st["phases"] or [])], tabled
 
 
@@ -309,6 +333,10 @@ def replay(ctx, data):
         sys_, e = sysdesc.quiet_call(sysdesc.build, case["desc"])
         names = [c["name"] for c in case["desc"]["comps"]]
         phases, tabled = list((case["desc"].get("phases") or {}).keys()), []
+    if "history" in case:
+        case["_twin"] = (lambda hh=case["history"]: c16.replay16(hh).sys)
+    elif "desc" in case:
+        case["_twin"] = (lambda d=case["desc"]: sysdesc.quiet_call(sysdesc.build, copy.deepcopy(d))[0])
     base = snapshot(sys_)
     for label, args, _ in case.get("calls", []):
         pass
